@@ -82,8 +82,8 @@ CHECKS = {
         text='The specification runs two expansions of the same input side by side: with key-ordered iteration of the Into target map they always agree, with hash-map iteration TLC produces the two-target counterexample (checked on every run as a regression test of the model). Every input (all subsets of four Into targets x shapes x attribute orders, plus the multi-trait corpus) is expanded several times in one process and in several fresh processes with different histories; all token streams of one input must be equal.',
         design_ref='DESIGN.md section 6 (C16)', note=TB_X),
     'C17': dict(
-        technique='TLA+ scanner specification (termination / verdict in {ok, err} for every abstract input, MC_C13) model-checked with TLC; all model inputs plus seeded token-level mutations and stress inputs expanded by the real macro entry point in a guarded child; outcomes validated by TLC against TraceX.tla; candidates confirmed through the real compiler',
-        text='The scanner specification terminates with ok/err on every abstract input including every value kind at every parameter; the harness runs all of them, the structural negatives, seeded token mutations and depth/length stress inputs through the real entry point under catch_unwind with a timeout and a 64 MB stack; anything other than items or a diagnostic is a candidate that is confirmed with the real compiler (proc-macro panicked) before it is reported.',
+        technique='TLA+ scanner specification (termination / verdict in {ok, err} for every abstract input, MC_C13) model-checked with TLC; all model inputs, the type-expression grammar (EduceTypes.tla) and the degenerate-shape model (EduceShapes.tla: empty bodies / variant lists / field lists under every trait request) plus seeded token-level mutations and stress inputs expanded by the real macro entry point in a guarded child; outcomes validated by TLC against TraceX.tla; candidates confirmed through the real compiler',
+        text='The scanner specification terminates with ok/err on every abstract input including every value kind at every parameter; the harness runs all of them, the structural negatives, every type expression and every degenerate shape (EduceTypes / EduceShapes), seeded token mutations and depth/length stress inputs through the real entry point under catch_unwind with a timeout and a 64 MB stack; anything other than items or a diagnostic is a candidate that is confirmed with the real compiler (proc-macro panicked) before it is reported.',
         design_ref='DESIGN.md section 6 (C17)', note=TB_X),
     'C11': dict(
         technique='TLA+ spec (EduceBounds.Delegated/Supers/Applies, MC_C11) model-checked with TLC; TLC-enumerated generic corpus compiled with the real derive; '
